@@ -865,6 +865,10 @@ func c17Provenance(p *Prog, r *Report) {
 			if pc, ok := ast.Unparen(s.Call.Args[1]).(*ast.CallExpr); ok && p.callIs(fi.Pkg, pc, "(*internal/model.ContentFile).Path") {
 				if sel, ok := pc.Fun.(*ast.SelectorExpr); ok {
 					cfObj = objOf(info, sel.X)
+					if cfObj != nil {
+						// (the record handed by value to a spliced-in helper: contents.write(ctx, cFile, content))
+						cfObj = f.CanonObj(cfObj)
+					}
 					okPath = cfObj != nil
 				}
 			}
@@ -880,7 +884,7 @@ func c17Provenance(p *Prog, r *Report) {
 				return false
 			}
 			sel, ok := as.Lhs[0].(*ast.SelectorExpr)
-			if !ok || sel.Sel.Name != "Parent" || objOf(info, sel.X) != cfObj {
+			if !ok || sel.Sel.Name != "Parent" || objOf(info, sel.X) == nil || f.CanonObj(objOf(info, sel.X)) != cfObj {
 				return false
 			}
 			pc, ok := ast.Unparen(as.Rhs[0]).(*ast.CallExpr)
